@@ -146,16 +146,25 @@ CHECKS = {
               "patterns and three regex corner cases; one output shape with unvalidated grammar is not judged"),
         design='DESIGN.md section 4 (C14)'),
     'C09': dict(
-        level='exploration',
-        technique='bounded stand-in only: the contract of find_subtypes / find_irrelevant_type (every returned type usable, a subtype of / unrelated to the query in an independent declarative relation, self included iff asked, nothing for top) evaluated on the real functions over synthetic class tables with every random choice enumerated, and on the queries a generator + TypeOverwriting run issues',
-        text=("NOT proved: the searches are randomised recursive procedures over the class table whose soundness needs the "
-              "declarative subtype relation with variance and bounds as an inductive specification; the part of it that is under "
-              "contract (C06) does not cover _construct_related_types. The bounded check enumerates, for a family of class tables "
-              "(plain, generic, variance, nested, bounds, dependent bounds) x every query type x every flag combination, ALL "
-              "random-choice paths of the real search, and judges every returned type with a reference relation written from the "
-              "property text. 12 failing input classes were repaired in /repo (four fix commits); what remains are two families of input classes recorded as lists of concrete inputs in known_findings.json. Type identity (__eq__ / __hash__ of the IR types) is under a deductive contract; nothing else is."),
-        note="bounded: stated class-table family; random choices enumerated exhaustively per query up to a path budget; known findings pinned to 16 concrete inputs (re-instantiation not seen by the IR's own is_subtype; same-class variation under projections / dependent bounds); the random class tables are a fixed list",
-        design='DESIGN.md section 4 (C09)'),
+        level='proof',
+        technique='deductive verification of the real search functions with pyvc + z3: _find_types / find_subtypes / find_supertypes / to_type in full mode (loop invariant over the pool walk, postconditions over the returned list, C06\'s contract of is_subtype at the guarding call), find_irrelevant_type in slice mode with obligations at every return statement and at the two search calls; bounded evaluation of the same statement against an independent declarative relation for what the proof leaves open (_construct_related_types, completeness of the searches, re-instantiation)',
+        text=("Proved for every pool, query and flag combination (63 obligations): every element of a subtype-search result is -- or, for a "
+              "bare generic class when concrete types are requested, is an instantiation of -- a type for which the type system "
+              "answered is_subtype(T) (hence a subtype in the declarative relation by C06's proved contract), or T itself exactly "
+              "when asked for, or the ONE element built by _construct_related_types (ghost Related: outside the proof); no "
+              "uninstantiated generic class is returned when concrete types are requested; T is included (modulo ==) when asked "
+              "for and the identical object is never included otherwise. The irrelevant-type search returns None for the top "
+              "type; it runs both searches with include_self and concrete_only on the whole pool for the query or, for a type "
+              "variable, its bound (followed through variable-to-variable bounds); a pool member it returns is (modulo ==) in "
+              "neither complete result list, is not the top type and not a bare generic class; a re-instantiated generic class is "
+              "returned only if is_subtype answered False in both directions; every return statement of the function is under an "
+              "obligation. NOT proved -- bounded: what _construct_related_types builds, that the two result lists contain ALL "
+              "relatives (exactness of C06), get_irrelevant_parameterized_type. The bounded check enumerates, for a family of "
+              "class tables x every query type x every flag combination, ALL random-choice paths of the real search and judges "
+              "every returned type with a reference relation written from the property text. 12 failing input classes were "
+              "repaired in /repo (four fix commits); two families of input classes remain as known findings (lists of concrete inputs)."),
+        note="trusted: _construct_related_types and instantiate_type_constructor as uninterpreted ghosts (Related / InstOf), 'an instantiation of a bare generic class below T is below T', PoolValid precondition, slice-mode havoc in find_irrelevant_type (choose_type, get_irrelevant_parameterized_type, one dict comprehension), superset model of sets of IR types, to_type as a function symbol; bounded: stated class-table family, random choices enumerated per query up to a path budget, known findings pinned to 16 concrete inputs",
+        design='DESIGN.md section 10.9 (C09 proof part), section 4 (C09)'),
     'C08': dict(
         level='proof',
         technique='deductive verification in slice mode of the instantiation helpers (site obligations at the only place that creates a use-site projection, at t_args.append and at the call forwarding the variance choices; _get_type_arg_variance fully under contract) with z3; bounded run-time evaluation of the bound / arity / kept-request clauses',
